@@ -169,8 +169,10 @@ func cmdC02(args []string) error {
 	for _, b := range brows {
 		beats[[2]Ver{b.N, b.O}] = b.Beats
 	}
-	if err := ordersOnLMDB(R, rows, beats, concs, tierName); err != nil {
-		return err
+	if tierName != "rows-only" {
+		if err := ordersOnLMDB(R, rows, beats, concs, tierName); err != nil {
+			return err
+		}
 	}
 	return Emit(R)
 }
